@@ -58,6 +58,46 @@ def detect(color):
     return "unknown"
 '''
 
+REF_HSL = '''
+def hsl_of(r, g, b):
+    mx = max(r, g, b)
+    mn = min(r, g, b)
+    diff = mx - mn
+    l = (mx + mn) / 2
+    if diff == 0:
+        h = 0
+        s = 0
+    else:
+        s = max(0.0, min(1.0, diff / (1 - abs(2 * l - 1))))
+        if mx == r:
+            h = (g - b) / diff % 6
+        elif mx == g:
+            h = (b - r) / diff + 2
+        else:
+            h = (r - g) / diff + 4
+        h *= 60
+    return (h, s * 100, l * 100)
+
+def hsl_of_min_only(r, g, b):
+    mx = max(r, g, b)
+    mn = min(r, g, b)
+    diff = mx - mn
+    l = (mx + mn) / 2
+    if diff == 0:
+        h = 0
+        s = 0
+    else:
+        s = min(1.0, diff / (1 - abs(2 * l - 1)))
+        if mx == r:
+            h = (g - b) / diff % 6
+        elif mx == g:
+            h = (b - r) / diff + 2
+        else:
+            h = (r - g) / diff + 4
+        h *= 60
+    return (h, s * 100, l * 100)
+'''
+
 EXPECTED = {"hex": f"{CONV}.rgb_to_hex", "rgb": f"{CONV}.rgbint_to_string", "hsl": f"{CONV}.rgb_to_hsl", "rgb_tuple": None,
             "named": f"{CONV}.rgb_to_hex", "rgba": f"{CONV}.rgb_to_hex", "hsla": f"{CONV}.rgb_to_hex", "rgba_tuple": f"{CONV}.rgb_to_hex", "unknown": f"{CONV}.rgb_to_hex"}
 
@@ -115,28 +155,38 @@ def run(project, chk):
     fmt_want = ("attr", ("attr", ("param", "self"), "text"), "_format")
     for node in rets:
         o = org.of(node.id, node.ast.value)
-        alts = list(o[1]) if o[0] == "phi" else [o]
-        formatted = [a for a in alts if a[0] == "tuple" and len(a[1]) == 2 and a[1][0][0] == "call" and a[1][0][1] == f"{PAR}.format_color"]
-        raw = [a for a in alts if a not in formatted]
-        ok = len(formatted) == 1
+        # the colour component of what is returned, as a set of alternatives
+        colours = []
+        for a0 in (list(o[1]) if o[0] == "phi" else [o]):
+            if a0[0] == "tuple" and len(a0[1]) == 2:
+                colours += list(a0[1][0][1]) if a0[1][0][0] == "phi" else [a0[1][0]]
+            else:
+                colours.append(("item", a0, 0))
         detail = oshow(o)[:200]
-        if ok:
-            fc, flag = formatted[0][1]
-            args = list(fc[2]) + [v for _, v in fc[3]]
-            colour_ok = len(args) == 2 and args[0][0] == "attr" and args[0][2] in ("rgb", "_rgb") and args[0][1][0] == "call" and args[0][1][1] == f"{COLORS}.Color" and args[0][1][2] and args[0][1][2][0] == ("item", ("call", CAF, args[0][1][2][0][1][2], args[0][1][2][0][1][3], None), 0) if (len(args) == 2 and args[0][0] == "attr" and args[0][1][0] == "call" and args[0][1][2] and args[0][1][2][0][0] == "item" and args[0][1][2][0][1][0] == "call") else False
-            fmt_ok = len(args) == 2 and args[1] == fmt_want
-            flag_ok = flag[0] == "item" and flag[2] == 1 and flag[1][0] == "call" and flag[1][1] == CAF
-            ok = colour_ok and fmt_ok and flag_ok
-            chk.check(fmt_ok, "O2", fi.short, norm_text(node.ast), project.loc(fi.module, node.ast), "the result is rendered in the text colour's own detected format", how=f"format argument origin: {oshow(args[1]) if len(args) == 2 else '?'}",
-                      message=f"the result is formatted with {oshow(args[1]) if len(args) == 2 else '?'} instead of self.text._format")
-            chk.check(colour_ok and flag_ok, "O2", fi.short, norm_text(node.ast), project.loc(fi.module, node.ast), "what is formatted is the optimiser's colour and the flag is the optimiser's flag", how=detail,
-                      message=f"the formatted colour / flag are not check_and_fix_contrast's: {detail}")
-        else:
-            chk.fail("O2", fi.short, norm_text(node.ast), project.loc(fi.module, node.ast), f"no path re-formats the optimiser's result with format_color: {detail}")
-        for a in raw:
-            okraw = a[0] == "call" and a[1] == CAF
-            chk.check(okraw, "O2", fi.short, norm_text(node.ast), project.loc(fi.module, node.ast), "the only other value that can be returned is the optimiser's own (colour, flag)", how=oshow(a)[:100],
-                      message=f"make_readable can return {oshow(a)[:120]}")
+
+        def is_formatted(c):
+            if not (c[0] == "call" and c[1] == f"{PAR}.format_color"):
+                return False, False
+            args = list(c[2]) + [v for _, v in c[3]]
+            if len(args) != 2:
+                return True, False
+            col = args[0]
+            col_ok = col[0] == "attr" and col[2] in ("rgb", "_rgb") and col[1][0] == "call" and col[1][1] == f"{COLORS}.Color" and bool(col[1][2]) and \
+                col[1][2][0][0] == "item" and col[1][2][0][2] == 0 and col[1][2][0][1][0] == "call" and col[1][2][0][1][1] == CAF
+            return True, (col_ok and args[1] == fmt_want)
+
+        fm = [c for c in colours if is_formatted(c)[0]]
+        chk.check(bool(fm), "O2", fi.short, norm_text(node.ast), project.loc(fi.module, node.ast), "some path re-formats the optimiser's colour with format_color", how=detail,
+                  message=f"no path re-formats the optimiser's result with format_color: {detail}")
+        for c in fm:
+            chk.check(is_formatted(c)[1], "O2", fi.short, norm_text(node.ast), project.loc(fi.module, node.ast), "the colour returned is format_color(Color(<optimiser's colour>).rgb, self.text._format): rendered in the text colour's own detected format",
+                      how=oshow(c)[:160], message=f"the returned colour is {oshow(c)[:160]}: not the optimiser's colour rendered with self.text._format")
+        for c in colours:
+            if c in fm:
+                continue
+            okraw = c[0] == "item" and c[2] == 0 and c[1][0] == "call" and c[1][1] == CAF
+            chk.check(okraw, "O2", fi.short, norm_text(node.ast), project.loc(fi.module, node.ast), "the only other colour that can be returned is the optimiser's own rgb() string (when it cannot be re-parsed)", how=oshow(c)[:100],
+                      message=f"make_readable can return the colour {oshow(c)[:120]}, which is neither the re-formatted nor the optimiser's own value")
     # the re-formatting assignment must not depend on success
     n_fmt = 0
     sc = Scope(project, fi)
@@ -162,6 +212,11 @@ def run(project, chk):
                 chk.check(ok, "O2", f2.short, norm_text(par if par is not None else n), project.loc(m, n), "_format is the detected format of the constructor's input (or the initial placeholder)", how="store census of _format",
                           message="_format is written from something other than detect_color_format(self.original)")
 
+    emitted_fields(project, chk)
+
+
+def emitted_fields(project, chk, R3="O3", R4="O4"):
+    """Rules about what the formatters emit (shared with C01: 'as a CSS consumer reads it back')."""
     # ---------------------------------------------------------------- O3
     # hsl()
     fi = project.func(f"{CONV}.rgb_to_hsl")
@@ -177,8 +232,12 @@ def run(project, chk):
     texts = [p[1] for p in out[1] if p[0] == "str"]
     holes = [p[1] for p in out[1] if p[0] == "fmt"]
     tmpl = "{}".join(texts) if len(texts) == len(holes) + 1 else None
-    chk.check(tmpl == "hsl({}, {}%, {}%)" and len(holes) == 3, "O3", fi.short, f"template {tmpl!r}", loc, "the emitted text is hsl(<h>, <s>%, <l>%)", how=f"constant parts {texts}",
+    chk.check(tmpl == "hsl({}, {}%, {}%)" and len(holes) == 3, R3, fi.short, f"template {tmpl!r}", loc, "the emitted text is hsl(<h>, <s>%, <l>%)", how=f"constant parts {texts}",
               message=f"the emitted hsl() template is {tmpl!r}")
+    specs = [p[2] for p in out[1] if p[0] == "fmt"]
+    lossy = [sp for sp in specs if sp not in ("", "r")]
+    chk.check(not lossy, R3, fi.short, f"format specs {specs}", loc, "the hsl() fields are emitted with full float precision (repr round-trips exactly)", how="no precision-limiting format spec on h, s, l",
+              message=f"the hsl() fields are emitted with format spec(s) {lossy}: the text no longer denotes the judged colour exactly (a CSS consumer reads back a neighbouring colour, which can sit on the other side of a contrast threshold)")
     cons = getattr(ex, "constraints", [])
     if len(holes) == 3:
         for name, e, lo, hi in (("saturation", holes[1], 0, 100), ("lightness", holes[2], 0, 100)):
@@ -186,13 +245,20 @@ def run(project, chk):
                 iv = interval(e, {}, cons)
             except Exception as ex2:
                 raise AnalysisError(f"ANALYSIS-INCONCLUSIVE {fi.short}: interval of {name} unreadable ({ex2})")
-            chk.check(within(iv, lo, hi), "O3", fi.short, f"{name} field", loc, f"the emitted {name} percentage lies in [{lo}, {hi}] (the reader rejects anything beyond)",
+            chk.check(within(iv, lo, hi), R3, fi.short, f"{name} field", loc, f"the emitted {name} percentage lies in [{lo}, {hi}] (the reader rejects anything beyond)",
                       how=f"interval {iv} under the function's own validation guards", message=f"the emitted {name} percentage has interval {iv}: values above 100% (float rounding of an unclamped quotient) are rejected by the library's own hsl parser")
         # s and l are emitted scaled by 100 exactly
         for name, e, var in (("saturation", holes[1], "s"), ("lightness", holes[2], "l")):
             base = env.get(var)
             ok = base is not None and (e == ("op", "*", (("num", 100), base)) or e == ("op", "*", (("num", 100.0), base)))
-            chk.check(ok, "O3", fi.short, f"{name} scaling", loc, f"{name} is emitted as {var} * 100", how=show(e)[:60] if not ok else "field == 100 * " + var, message=f"{name} is emitted as {show(e)[:80]}, not {var} * 100")
+            chk.check(ok, R3, fi.short, f"{name} scaling", loc, f"{name} is emitted as {var} * 100", how=show(e)[:60] if not ok else "field == 100 * " + var, message=f"{name} is emitted as {show(e)[:80]}, not {var} * 100")
+    # the RGB -> HSL conversion itself (the achromatic test is exact equality of max and min; sector formulas; clamped saturation)
+    chk.rule(R4, "rgb_to_hsl computes the standard RGB -> HSL conversion (exact achromatic test, sector formulas, x60, saturation clamped to [0,1])")
+    if len(holes) == 3 and all(v in env for v in ("r", "g", "b")):
+        from sa.formula import transform as _tr
+        memo = {id(env[v]): (env[v], ("var", v)) for v in ("r", "g", "b")}
+        core = _tr(("tuple", (holes[0], holes[1], holes[2])), lambda n: n, memo)
+        audit(project, chk, R4, f"{CONV}.rgb_to_hsl", REF_HSL, "hsl_of", Policy(), "RGB -> HSL (normalised channels)", code_expr=core, inline=False, alternatives=["hsl_of_min_only"])
     # rgb()
     fi = project.func(f"{CONV}.rgbint_to_string")
     chk.saw_function(fi)
@@ -200,7 +266,7 @@ def run(project, chk):
     out = final_value(ret)
     guard_ok = ret[0] == "ite" and ret[3] == out or ret[0] == "ite" and ret[2] == out
     ok = out[0] == "fstr" and [p[1] for p in out[1] if p[0] == "str"] == ["rgb(", ", ", ", ", ")"] and [p[1] for p in out[1] if p[0] == "fmt"] == [("index", ("var", "rgb"), ("num", k)) for k in range(3)]
-    chk.check(ok and guard_ok and "is_valid_rgb" in show(ret), "O3", fi.short, show(out)[:80], project.loc(fi.module, fi.node), "rgb(r, g, b) of the three components in order, after the range check", how="template and operand order; validation precedes",
+    chk.check(ok and guard_ok and "is_valid_rgb" in show(ret), R3, fi.short, show(out)[:80], project.loc(fi.module, fi.node), "rgb(r, g, b) of the three components in order, after the range check", how="template and operand order; validation precedes",
               message=f"rgbint_to_string does not emit rgb(rgb[0], rgb[1], rgb[2]) after validating: {show(ret)[:120]}")
     # hex
     fi = project.func(f"{CONV}.rgb_to_hex")
@@ -218,7 +284,7 @@ def run(project, chk):
                 b = b[3]
             got.append(b)
         order = got == want_tuple
-    chk.check(ok and order, "O3", fi.short, show(out)[:80], project.loc(fi.module, fi.node), "'#{:02x}{:02x}{:02x}'.format(r, g, b) in R, G, B order", how="template and operand order",
+    chk.check(ok and order, R3, fi.short, show(out)[:80], project.loc(fi.module, fi.node), "'#{:02x}{:02x}{:02x}'.format(r, g, b) in R, G, B order", how="template and operand order",
               message=f"rgb_to_hex does not emit #rrggbb from (r, g, b) in order: {show(out)[:120]}")
     ranged = "isinstance" in show(ret) and "255" in show(ret)
-    chk.check(ranged, "O3", fi.short, "validation", project.loc(fi.module, fi.node), "hex digits are produced only for ints in 0..255", how="all(isinstance(x, int) and 0 <= x <= 255 ...) precedes the formatting", message="rgb_to_hex formats without validating the components")
+    chk.check(ranged, R3, fi.short, "validation", project.loc(fi.module, fi.node), "hex digits are produced only for ints in 0..255", how="all(isinstance(x, int) and 0 <= x <= 255 ...) precedes the formatting", message="rgb_to_hex formats without validating the components")
